@@ -207,6 +207,68 @@ theorem clunk_always_unbinds (m : Msg) (c : Ctx) :
           · simp only [pure, Out.ok.injEq] at h; exact h.2.symm
       rw [this]; exact hu
 
+theorem lookupFid_cases (fid : Nat) (c : Ctx) :
+    (lookupFid fid c = .ok none c ∧ Unbound fid c) ∨ ∃ r, lookupFid fid c = .ok (some r) (pinned r c) := by
+  unfold lookupFid lookupFidRaw getS getConn Unbound
+  simp only [bind, pure]
+  cases hf : c.st.fids.find? (·.1 == (c.conn, fid)) with
+  | none => left; simp
+  | some e => right; exact ⟨e.2, rfl⟩
+
+/-- what `defer`red clean-up does to a postcondition of the body -/
+theorem finally_post {α : Type} (body : M α) (cl : M Unit) (P : Ctx → Prop)
+    (hbody : ∀ c a c1, body c = .ok a c1 → P c1)
+    (hcl : ∀ c1 u c2, P c1 → cl c1 = .ok u c2 → P c2) :
+    ∀ c a c', finally' body cl c = .ok a c' → P c' := by
+  intro c a c' h
+  unfold finally' at h
+  cases hb : body c with
+  | panic c1 =>
+    simp only [hb] at h
+    cases hc : cl c1 <;> simp [hc] at h
+  | ok a1 c1 =>
+    simp only [hb] at h
+    cases hc : cl c1 with
+    | panic c2 => simp [hc] at h
+    | ok u c2 =>
+      simp only [hc, Out.ok.injEq] at h
+      rw [← h.2]; exact hcl c1 u c2 (hbody c a1 c1 hb) hc
+
+/-- **Tremove always unbinds its fid**, whatever it reports (EINVAL for a root or an already
+deleted entry, the backend's errno of `UnlinkAt`, the errno of a failing `Close`, or success):
+whenever the handler returns, the fid is unbound – "to clunk the fid, even if the remove fails". -/
+theorem remove_always_unbinds (m : Msg) (c : Ctx) :
+    ∀ r c', hTremove m c = .ok r c' → Unbound (m.int 0) c' := by
+  intro r c' h
+  unfold hTremove at h
+  simp only [bind] at h
+  rcases lookupFid_cases (m.int 0) c with ⟨hl, hu⟩ | ⟨t, hl⟩
+  · simp only [hl, pure, Out.ok.injEq] at h; rw [← h.2]; exact hu
+  · simp only [hl] at h
+    refine finally_post _ _ (Unbound (m.int 0)) ?_ ?_ _ _ _ h
+    · intro c0 a c1 hb
+      simp only [getRef_eval] at hb
+      split at hb
+      · rename_i err c2 _
+        have hu := deleteFid_unbinds (m.int 0) c2
+        cases h2 : deleteFid (m.int 0) c2 with
+        | panic c3 => simp [h2] at hb
+        | ok fe c3 =>
+          simp only [h2] at hb hu
+          have : c1 = c3 := by
+            split at hb
+            · simp only [pure, Out.ok.injEq] at hb; exact hb.2.symm
+            · split at hb
+              · simp only [pure, Out.ok.injEq] at hb; exact hb.2.symm
+              · simp only [pure, Out.ok.injEq] at hb; exact hb.2.symm
+          rw [this]; exact hu
+      · cases hb
+    · intro c1 u c2 hP hcl
+      have hp := decRefU_fids t c1
+      rw [hcl] at hp
+      unfold Unbound at *
+      rw [hp.1, hp.2.1]; exact hP
+
 /-- `stop()` unbinds every fid of the connection. -/
 theorem stop_unbinds_all (s : State) (conn : Nat) :
     ∀ e ∈ (stop s conn).1.fids, e.1.1 ≠ conn := by
